@@ -353,7 +353,7 @@ func runCheck(prop, tier, root string, seed int) int {
 			"undischarged":                            violNames,
 			"unsupported_constructs":                  dedup(unsup),
 			"vacuous_units":                           vacuous,
-			"bounded_standins":                        []string{},
+			"bounded_standins":                        standinEvidence(standins),
 			"samples":                                 samples,
 			"arith":                                   "per function: bit-vectors of exact width (arith bv) or mathematical integers with explicit wrap-around at every Go operation (arith int)",
 		},
@@ -465,4 +465,14 @@ func shortFile(name string) string {
 		n = fmt.Sprintf("%s_%x", n[:120], h.Sum64())
 	}
 	return n
+}
+
+// standinEvidence lists the bounded stand-ins that ran (never counted under obligations / discharged).
+func standinEvidence(rs []standinResult) []map[string]string {
+	out := []map[string]string{}
+	for _, r := range rs {
+		out = append(out, map[string]string{"function": r.Name, "file": r.File, "bound": r.Bound, "cases": r.Cases, "status": r.Status,
+			"label": "bounded: a test of the real code over the stated finite set of inputs; not a proof and not counted as one"})
+	}
+	return out
 }
